@@ -9,6 +9,7 @@ PROP = {
         {"name": "s20_golden", "mode": "enum"},
         {"name": "archive", "quick": 1200000, "thorough": 9000000, "maxlen": 768},
         {"name": "s20", "quick": 500000, "thorough": 3000000, "maxlen": 768},
+        {"name": "archive_raw", "quick": 300000, "thorough": 3000000, "maxlen": 96},
         {"name": "archive_longdouble", "quick": 200000, "thorough": 2000000, "maxlen": 96},
         {"name": "archive_defaults", "quick": 200000, "thorough": 2000000, "maxlen": 400},
         {"name": "s20_defaults", "quick": 100000, "thorough": 1000000, "maxlen": 400},
